@@ -316,7 +316,7 @@ def file_hash(paths, extra=""):
     return h.hexdigest()[:20]
 
 
-def build(tag, verbose=False, jobs=16, kissel=False):
+def build(tag, verbose=False, jobs=16, kissel=False, o0=False):
     """Build everything for one check invocation into /verif/build/<tag>. Returns info dict."""
     t0 = time.time()
     bdir = os.path.join(VERIF, "build", tag)
@@ -344,8 +344,17 @@ def build(tag, verbose=False, jobs=16, kissel=False):
         sh([CLANG] + BASE + SAN + COV + ["-w", "-include", os.path.join(SIM, "xs_atomics.h")] + inc + ["-c", os.path.join(REPO, "src", f), "-o", o])
         return o
 
+    def cc_lib_o0(f):
+        # build configuration "O0" (DESIGN 5.1 g): the same sources without optimisation, so that every local variable
+        # lives in a stack slot -- at -O1 an uninitialised scalar is an `undef` register value that no scrub can reach
+        o = os.path.join(odir, "o0_" + f[:-2] + ".o")
+        flags = [x for x in BASE if not x.startswith("-O")] + ["-O0"]
+        sh([CLANG] + flags + SAN + COV + ["-w", "-include", os.path.join(SIM, "xs_atomics.h")] + inc + ["-c", os.path.join(REPO, "src", f), "-o", o])
+        return o
+
     with cf.ThreadPoolExecutor(jobs) as ex:
         lib_futs = [ex.submit(cc_lib, f) for f in lib_src]
+        o0_futs = [ex.submit(cc_lib_o0, f) for f in lib_src] if o0 else []
         pr_objs = list(ex.map(cc_prdata, prdata_src))
         prdata = os.path.join(bdir, "prdata")
         sh(["gcc", "-o", prdata] + pr_objs + ["-lm"])
@@ -500,6 +509,27 @@ def build(tag, verbose=False, jobs=16, kissel=False):
         info["exe_K"] = exe_k
         info["bdir_K"] = kdir
         info["kissel_elements_converted"] = nel
+    if o0:
+        o0_objs = [f.result() for f in o0_futs]
+        vdir = os.path.join(bdir, "O0")
+        shutil.rmtree(vdir, ignore_errors=True)
+        os.makedirs(vdir)
+        merged_v = os.path.join(odir, "libmerged_O0.o")
+        sh(["ld", "-r", "-o", merged_v] + o0_objs + [tab_o])
+        with open(os.path.join(vdir, "libfuncs.sym"), "w") as f:
+            f.write(sh(["nm", "-S", "--defined-only", merged_v]))
+        final_v = os.path.join(odir, "libxrl_sim_O0.o")
+        sh(["objcopy", "--redefine-syms=" + seam_map, merged_v, final_v])
+        os.unlink(merged_v)
+        exe_v = os.path.join(vdir, "xrlsim")
+        sh([CLANGXX, "-fsanitize=address,undefined", "-g", "-o", exe_v] + sim_objs + [final_v, "-lm", "-lpthread", "-ldl"])
+        with open(os.path.join(vdir, "exe.sym"), "w") as f:
+            f.write(sh(["nm", "-n", "-S", "--defined-only", exe_v]))
+        for f in ("tables.sym", "catalogue.names", "xrayvars.sym", "Crystals.dat", "atomic_funcs.txt"):
+            shutil.copyfile(os.path.join(bdir, f), os.path.join(vdir, f))
+        os.unlink(final_v)
+        info["exe_O0"] = exe_v
+        info["bdir_O0"] = vdir
     info["exe"] = exe
     info["bdir"] = bdir
     info["build_s"] = round(time.time() - t0, 2)
